@@ -221,6 +221,26 @@ class ConcWorld(object):
         self.key_table = {}
         self.excluded = set(excluded)
         self.assume_failed = False
+        self._install_clock()
+
+    def _install_clock(self):
+        """Counterexamples that depend on the (stubbed) clock carry its instants as inputs clock!1, clock!2, ...:
+        callers inside the repository get them from time.time() in that order; everybody else gets the real time."""
+        clocks = sorted((int(k.split("!")[1]), float(self._val(k))) for k in self.inputs if k.startswith("clock!"))
+        if not clocks:
+            return
+        import time as _t
+        real = _t.time
+        seq = [v for _, v in clocks]
+        state = {"i": 0}
+
+        def fake():
+            if not sys._getframe(1).f_code.co_filename.startswith(REPO):
+                return real()
+            i = state["i"]
+            state["i"] = i + 1
+            return seq[i] if i < len(seq) else seq[-1]
+        _t.time = fake
 
     def _val(self, name, default=0):
         v = self.inputs.get(name)
